@@ -21,8 +21,10 @@ LEVELS = {
             "Coq theorems on the post-contour logic + symmetry oracle (partial)"),
     "C17": ("PARTIAL. Proved: the window is the (2L+1)^2 square of distinct pixels centred on the vertex, the integrated band is summed over "
             "distinct pixels and is linear in the image, the window-median statistic is positively homogeneous and returns the brightness of a "
-            "uniform image, 'average' normalisation gives mean one, values keep the order given. Model tied to get_intensities by exact "
-            "rational correspondence; the polyline-length divisor (sqrt) and PIL's pixel access are oracles",
+            "uniform image, 'average' normalisation gives mean one, values keep the order given; the layered band is characterised (one walk position per "
+            "integer step along the axis of larger extent, a pixel is in the band iff within `layers` of a walk position of some segment). Model tied to "
+            "get_intensities by exact rational correspondence and the band (Model/Band.v, numpy's binary64 interpolation) to get_interpolation exactly; "
+            "the polyline-length divisor (sqrt) and PIL's pixel access are oracles",
             "5/C17", "Coq theorems on a Gallina model + exact correspondence + oracle (partial)"),
     "C18": ("theorems over R for every selection: zero where nothing is selected, jointly linear in pressures and tensions, minus p times "
             "the identity for pure pressure; the dictionary key is injective up to 10 x 10 and collides at 12 x 12 (refutation = known "
